@@ -11,9 +11,20 @@ pub struct RwaTok;
 
 #[contractimpl]
 impl RwaTok {
-    pub fn __constructor(e: &Env, compliance: Address, identity: Address) {
+    /// Either contract may be left out (a token that is not wired up yet) and named later.
+    pub fn __constructor(e: &Env, compliance: Option<Address>, identity: Option<Address>) {
         Base::set_metadata(e, 7, String::from_str(e, "R"), String::from_str(e, "R"));
+        if let Some(c) = compliance {
+            RWA::set_compliance(e, &c);
+        }
+        if let Some(i) = identity {
+            RWA::set_identity_verifier(e, &i);
+        }
+    }
+    pub fn wire_compliance(e: &Env, compliance: Address) {
         RWA::set_compliance(e, &compliance);
+    }
+    pub fn wire_identity_verifier(e: &Env, identity: Address) {
         RWA::set_identity_verifier(e, &identity);
     }
     pub fn mint(e: &Env, to: Address, amount: i128) {
